@@ -44,9 +44,12 @@ type C03Plan struct {
 	CutAtMs int       `json:"cut_at_ms"` // cut the first link of the primary path (0: never)
 	// other dials from the same node to the same service while the stream is in use, each given up after
 	// AbandonUs (before or after its handshake completes)
-	AbandonAtMs []int    `json:"abandon_at_ms"`
-	AbandonUs   int      `json:"abandon_us"`
-	Shrink      []string `json:"_shrink"`
+	AbandonAtMs []int `json:"abandon_at_ms"`
+	AbandonUs   int   `json:"abandon_us"`
+	// a second stream from the same node to another service of the far node, whose listener goes away at this time
+	// while the dialler keeps writing (0: none): every datagram it still sends is answered by a notice
+	SinkCloseAtMs int      `json:"sink_close_at_ms"`
+	Shrink        []string `json:"_shrink"`
 }
 
 func genC03(seed uint64, tier string) any {
@@ -78,6 +81,9 @@ func genC03(seed uint64, tier string) any {
 			p.AbandonAtMs = append(p.AbandonAtMs, r.Range(0, 3000))
 		}
 		p.AbandonUs = simnet.Pick(r, []int{100, 3000, 20000, 100000, 1000000})
+	}
+	if r.Bool(0.3) {
+		p.SinkCloseAtMs = r.Range(100, 2500)
 	}
 	sizes := []int{0, 1, 100, 1199, 1200, 1201, 16384, 65536, 100000, 300000}
 	if tier == "thorough" {
@@ -342,6 +348,41 @@ func runC03(t *testing.T, planAny any, res *simnet.Result) {
 			}
 			pump(c, append([]byte{'M'}, dataAB...), p.ChunkAB, &a, "A", false)
 		}()
+		// a neighbouring stream whose far end disappears
+		if p.SinkCloseAtMs > 0 {
+			if sink, err := dst.Net().Listen("sink", nil); err == nil {
+				go func() {
+					for {
+						c, err := sink.Accept()
+						if err != nil {
+							return
+						}
+						go func() { _, _ = io.Copy(io.Discard, c) }()
+					}
+				}()
+				go func() {
+					ctx, cancel := context.WithTimeout(context.Background(), 20*time.Second)
+					conn, err := src.Net().DialContext(ctx, dst.ID, "sink", nil)
+					cancel()
+					if err != nil {
+						return
+					}
+					w.Count("probe_neighbour_stream", 1)
+					for i := 0; i < 400; i++ {
+						if _, err := conn.Write([]byte("record")); err != nil {
+							break
+						}
+						time.Sleep(25 * time.Millisecond)
+					}
+					_ = conn.CloseConnection()
+				}()
+				go func() {
+					time.Sleep(time.Duration(p.SinkCloseAtMs) * time.Millisecond)
+					_ = sink.Close()
+					w.Count("fault_neighbour_listener_closed", 1)
+				}()
+			}
+		}
 		// other dials to the same service come and go; they must not disturb the stream
 		for _, at := range p.AbandonAtMs {
 			go func(at int) {
